@@ -34,15 +34,21 @@ func init() {
 }
 
 type Op struct {
-	K   string `json:"k"`
-	S   int    `json:"s"`   // session index
-	V   int    `json:"v"`   // variant
-	RR  bool   `json:"rr"`  // reply requested (attacks)
+	K  string `json:"k"`
+	S  int    `json:"s"`  // session index
+	V  int    `json:"v"`  // variant
+	RR bool   `json:"rr"` // reply requested (attacks)
 }
 
 type Case struct {
 	Ops []Op `json:"ops"`
+	// Own: the server's SecurityConfig carries its own SessionCache (handshake-negotiated
+	// sessions still live in the global cache; the server falls back to it).
+	Own bool `json:"own,omitempty"`
 }
+
+// ownCache is the server's private cache for the current case, nil when the server uses the global one.
+var ownCache *security.SessionCache
 
 type recording struct {
 	c2s, s2c [][]byte
@@ -51,21 +57,21 @@ type recording struct {
 }
 
 type sess struct {
-	sid      string
-	key      []byte
-	hasKey   bool
-	authed   bool
-	user     string
-	alive    bool
-	expired  bool
-	ccfg     *security.SecurityConfig
-	recs     []recording
+	sid             string
+	key             []byte
+	hasKey          bool
+	authed          bool
+	user            string
+	alive           bool
+	expired         bool
+	ccfg            *security.SecurityConfig
+	recs            []recording
 	resumedHonestly bool
 }
 
 func serverConfig() *security.SecurityConfig {
 	c := kit.BaseConfig(security.SecurityOptional, security.SecurityOptional, security.AuthClaimToBe)
-	c.SessionCache = nil
+	c.SessionCache = ownCache
 	c.SessionDuration = 3600
 	c.SessionLease = 1800
 	return c
@@ -78,13 +84,13 @@ type world struct {
 
 // serverSide runs a real server handshake on conn and then the application step.
 type srvOut struct {
-	neg      *security.SecurityNegotiation
-	err      error
-	appMsg   []byte
-	appErr   error
-	st       *stream.Stream
-	probeAt  int // index in conn.Written() of the probe frame
-	wrote    bool
+	neg     *security.SecurityNegotiation
+	err     error
+	appMsg  []byte
+	appErr  error
+	st      *stream.Stream
+	probeAt int // index in conn.Written() of the probe frame
+	wrote   bool
 }
 
 const serverProbe = "SERVER-SECRET-PROBE-9f8e7d"
@@ -114,6 +120,13 @@ func findEntry(sid string) *security.SessionEntry {
 	for _, e := range security.GetSessionCache().Snapshot() {
 		if e.ID() == sid {
 			return e
+		}
+	}
+	if ownCache != nil {
+		for _, e := range ownCache.Snapshot() {
+			if e.ID() == sid {
+				return e
+			}
 		}
 	}
 	return nil
@@ -461,6 +474,10 @@ func (w *world) replay(s *sess, variant int) string {
 
 func runCase(c Case) (string, *world) {
 	security.ClearSessionCache()
+	ownCache = nil
+	if c.Own {
+		ownCache = security.NewSessionCache()
+	}
 	w := &world{}
 	n := 0
 	for oi, op := range c.Ops {
@@ -485,13 +502,21 @@ func runCase(c Case) (string, *world) {
 					e.VerifSetExpiration(time.Now().Add(-time.Duration(1+op.V%5) * time.Second))
 					if op.V%2 == 0 {
 						security.InvalidateExpiredSessions()
+						if ownCache != nil {
+							ownCache.InvalidateExpired()
+						}
 					}
 				}
 				s.alive, s.expired = false, true
 			}
 		case "invalidate":
 			if s != nil && s.alive {
+				// the session was filed by the handshake in the global cache: invalidating it there kills it;
+				// some applications also clear their own cache, which must make no difference
 				security.InvalidateSession(s.sid)
+				if ownCache != nil && op.V%2 == 1 {
+					ownCache.Invalidate(s.sid)
+				}
 				s.alive = false
 			}
 		case "attack":
@@ -515,6 +540,7 @@ func runCase(c Case) (string, *world) {
 
 func genCase(t *rapid.T) Case {
 	var c Case
+	c.Own = rapid.Bool().Draw(t, "own")
 	c.Ops = append(c.Ops, Op{K: "establish", V: rapid.IntRange(0, 3).Draw(t, "v0")})
 	n := rapid.IntRange(3, 12).Draw(t, "nops")
 	for i := 0; i < n; i++ {
@@ -557,43 +583,45 @@ func TestC06Sweep(t *testing.T) {
 		for _, life := range []string{"fresh", "resumed1", "resumed3", "expired-lazy", "expired-swept", "invalidated"} {
 			for kind := 0; kind < 9; kind++ {
 				for _, rr := range []bool{true, false} {
-					c := Case{Ops: []Op{{K: "establish", V: est}}}
-					switch life {
-					case "resumed1":
-						c.Ops = append(c.Ops, Op{K: "resume"})
-					case "resumed3":
-						c.Ops = append(c.Ops, Op{K: "resume"}, Op{K: "resume"}, Op{K: "resume"})
-					case "expired-lazy":
-						c.Ops = append(c.Ops, Op{K: "resume"}, Op{K: "expire", V: 1})
-					case "expired-swept":
-						c.Ops = append(c.Ops, Op{K: "expire", V: 2})
-					case "invalidated":
-						c.Ops = append(c.Ops, Op{K: "resume"}, Op{K: "invalidate"})
-					}
-					c.Ops = append(c.Ops, Op{K: "attack", V: kind, RR: rr}, Op{K: "resume"})
-					if kind < 4 && rr {
-						c.Ops = append(c.Ops, Op{K: "replay", V: kind}, Op{K: "replay", V: 7 + kind})
-					}
-					if kind == 0 && !rr {
-						// a key holder resumed without asking for a reply: replay exactly that connection
-						c.Ops = c.Ops[:len(c.Ops)-1]
-						c.Ops = append(c.Ops, Op{K: "replay", V: -1})
-					}
-					v, w := runCase(c)
-					record(c, w)
-					if est == 0 && life == "resumed1" && kind == 1 && rr {
-						ev.Sample("sweep", c)
-					}
-					if v != "" && bad < 6 {
-						bad++
-						kit.Violation("C06", v, c)
-						t.Errorf("C06 violated: %s", v)
+					for _, own := range []bool{false, true} {
+						c := Case{Own: own, Ops: []Op{{K: "establish", V: est}}}
+						switch life {
+						case "resumed1":
+							c.Ops = append(c.Ops, Op{K: "resume"})
+						case "resumed3":
+							c.Ops = append(c.Ops, Op{K: "resume"}, Op{K: "resume"}, Op{K: "resume"})
+						case "expired-lazy":
+							c.Ops = append(c.Ops, Op{K: "resume"}, Op{K: "expire", V: 1})
+						case "expired-swept":
+							c.Ops = append(c.Ops, Op{K: "expire", V: 2})
+						case "invalidated":
+							c.Ops = append(c.Ops, Op{K: "resume"}, Op{K: "invalidate"})
+						}
+						c.Ops = append(c.Ops, Op{K: "attack", V: kind, RR: rr}, Op{K: "resume"})
+						if kind < 4 && rr {
+							c.Ops = append(c.Ops, Op{K: "replay", V: kind}, Op{K: "replay", V: 7 + kind})
+						}
+						if kind == 0 && !rr {
+							// a key holder resumed without asking for a reply: replay exactly that connection
+							c.Ops = c.Ops[:len(c.Ops)-1]
+							c.Ops = append(c.Ops, Op{K: "replay", V: -1})
+						}
+						v, w := runCase(c)
+						record(c, w)
+						if est == 0 && life == "resumed1" && kind == 1 && rr {
+							ev.Sample("sweep", c)
+						}
+						if v != "" && bad < 6 {
+							bad++
+							kit.Violation("C06", v, c)
+							t.Errorf("C06 violated: %s", v)
+						}
 					}
 				}
 			}
 		}
 	}
-	ev.Exhaustive("4 establishment kinds x 6 lifetime points x 9 attack kinds x {reply requested, not}, each followed by an honest resume and replays of both directions")
+	ev.Exhaustive("4 establishment kinds x 6 lifetime points x 9 attack kinds x {reply requested, not} x {server on the global cache, server with its own cache}, each followed by an honest resume and replays of both directions")
 }
 
 func TestC06Replay(t *testing.T) {
